@@ -32,6 +32,8 @@ type PRes struct {
 	Scal PVal   `json:"scal"`
 	Msg  PVal   `json:"pm"`
 	D    Dump   `json:"d"`
+	// D2: the conversion that names its result type (List / IntMap / StrMap) on list and map nodes ("skipped" elsewhere)
+	D2   Dump   `json:"d2"`
 	Byid bool   `json:"byid"`
 	// Undecl: the path uses a field number the schema does not declare (typed access may answer "unknown field")
 	Undecl bool   `json:"undecl"`
@@ -136,7 +138,7 @@ func elemKind(fd protoreflect.FieldDescriptor, container bool, path []PItem) pro
 }
 
 func (c *c07) observe(v pgen.Value, api string, items []PItem, root bool) PRes {
-	r := PRes{API: api, Scal: pNone(), Msg: pNone(), D: Dump{K: "skipped", B: B{}, E: []DumpEntry{}}}
+	r := PRes{API: api, Scal: pNone(), Msg: pNone(), D: Dump{K: "skipped", B: B{}, E: []DumpEntry{}}, D2: Dump{K: "skipped", B: B{}, E: []DumpEntry{}}}
 	if _, _, _, ok := refWalk(c.env.rroot, items); !ok {
 		r.Undecl = true
 	}
@@ -178,7 +180,34 @@ func (c *c07) observe(v pgen.Value, api string, items []PItem, root bool) PRes {
 		}
 		r.D = dumpIface(x)
 	}()
+	r.D2 = Dump{K: "skipped", B: B{}, E: []DumpEntry{}}
 	if r.NK != "val" {
+		func() {
+			defer func() {
+				if e := recover(); e != nil {
+					r.D2 = Dump{K: "panic", B: B{}, E: []DumpEntry{}}
+					r.Note = fmt.Sprint(e)
+				}
+			}()
+			var x interface{}
+			var err error
+			switch {
+			case r.NK == "list":
+				x, err = v.List(&pgen.Options{})
+			case fd.MapKey().Kind() == protoreflect.StringKind:
+				x, err = v.StrMap(&pgen.Options{})
+			case fd.MapKey().Kind() == protoreflect.BoolKind:
+				return
+			default:
+				x, err = v.IntMap(&pgen.Options{})
+			}
+			if err != nil {
+				r.D2 = Dump{K: "err", B: B{}, E: []DumpEntry{}}
+				r.Note = err.Error()
+				return
+			}
+			r.D2 = dumpIface(x)
+		}()
 		return r
 	}
 	kind := elemKind(fd, container, items)
@@ -353,7 +382,7 @@ func (c *c07) run(pc PReadCase, doc []byte, newDoc bool, expect *PVal) {
 			defer func() {
 				if e := recover(); e != nil {
 					_, _, _, ok := refWalk(c.env.rroot, items)
-					r = PRes{API: api, St: "panic", Scal: pNone(), Msg: pNone(), D: Dump{K: "skipped", B: B{}, E: []DumpEntry{}}, Note: fmt.Sprint(e), Undecl: !ok}
+					r = PRes{API: api, St: "panic", Scal: pNone(), Msg: pNone(), D: Dump{K: "skipped", B: B{}, E: []DumpEntry{}}, D2: Dump{K: "skipped", B: B{}, E: []DumpEntry{}}, Note: fmt.Sprint(e), Undecl: !ok}
 				}
 			}()
 			r = f()
@@ -384,7 +413,7 @@ func (c *c07) run(pc PReadCase, doc []byte, newDoc bool, expect *PVal) {
 			}
 			err := parent.GetMany(pns, &pgen.Options{})
 			got := pns[0].Node
-			r := PRes{API: "V.GetMany", Scal: pNone(), Msg: pNone(), D: Dump{K: "skipped", B: B{}, E: []DumpEntry{}}}
+			r := PRes{API: "V.GetMany", Scal: pNone(), Msg: pNone(), D: Dump{K: "skipped", B: B{}, E: []DumpEntry{}}, D2: Dump{K: "skipped", B: B{}, E: []DumpEntry{}}}
 			if _, _, _, ok := refWalk(c.env.rroot, items); !ok {
 				r.Undecl = true
 			}
